@@ -19,6 +19,11 @@ func SpecVarintVal(b []byte, n int) uint64 { return specVarintVal(b, n) }
 // SpecTagLen: tag grammar at the start of b (length or error code).
 func SpecTagLen(b []byte) int { return specTagLen(b) }
 
+// SpecValueLen: field value grammar (length or error code) with the default nesting budget.
+func SpecValueLen(num Number, typ Type, b []byte) int {
+	return specValueLen(num, typ, b, DefaultRecursionLimit)
+}
+
 // SpecBytesLen: length-delimited payload grammar at the start of b.
 func SpecBytesLen(b []byte) int { return specBytesLen(b) }
 
